@@ -232,7 +232,8 @@ def handshake_case(res, W, rng, job, ji):
 
 
 API_VARIANTS = [("recv", {}), ("recv_data_frame", {}), ("recv_frame", {}), ("recv", {"skip_utf8_validation": True}),
-                ("recv_data_frame", {"fire_cont_frame": True}), ("close", {})]
+                ("recv_data_frame", {"fire_cont_frame": True}), ("close", {}), ("recv", {"fire_cont_frame": True}),
+                ("recv", {"fire_cont_frame": True, "skip_utf8_validation": True})]
 
 
 def mutated_stream(rng):
